@@ -737,7 +737,11 @@ class SimRLock(object):
             if not blocking:
                 return False
             sim.stat('lock-contended')
-            sim.block(lambda: self.owner is None, reason='lock')
+            to = None if timeout is None or timeout < 0 \
+                else int(timeout * 1e6)
+            if not sim.block(lambda: self.owner is None, to, reason='lock'):
+                sim.log('lock-timeout', None)
+                return False
         self.owner = me
         self.count = 1
         self.acquisitions += 1
